@@ -1,6 +1,7 @@
 package http
 
 import (
+	"bytes"
 	"encoding/binary"
 	"fmt"
 	"io"
@@ -20,16 +21,19 @@ func ReadPosMapFrom(r io.Reader) (map[string]ltx.Pos, error) {
 	}
 
 	// Read entries and insert into map.
-	m := make(map[string]ltx.Pos, n)
+	m := make(map[string]ltx.Pos) // n is untrusted; do not preallocate from it
 	for i := uint32(0); i < n; i++ {
 		var nameN uint32
 		if err := binary.Read(r, binary.BigEndian, &nameN); err != nil {
 			return nil, err
 		}
-		name := make([]byte, nameN)
-		if _, err := io.ReadFull(r, name); err != nil {
+		var nameBuf bytes.Buffer // nameN is untrusted; grow with the bytes received
+		if _, err := io.CopyN(&nameBuf, r, int64(nameN)); err == io.EOF {
+			return nil, io.ErrUnexpectedEOF
+		} else if err != nil {
 			return nil, err
 		}
+		name := nameBuf.Bytes()
 
 		var pos ltx.Pos
 		if err := binary.Read(r, binary.BigEndian, &pos.TXID); err != nil {
